@@ -355,13 +355,26 @@ theorem tokens_sound (o : VOpts) (b : Bytes) (hlen : b.length + 2 < 2 ^ 61)
 example : Model.TokenLoop.isValidByTokens {} [0x7B, 0x22, 0x61, 0x22, 0x3A, 0x5B, 0x31, 0x2C, 0x6E, 0x75, 0x6C, 0x6C, 0x5D, 0x7D] = true := by
   decide +kernel
 
-/-- The one full statement that is NOT proved: the STREAM-level agreement (the two loops complete the same number
-of top-level values and end with io.EOF on the same inputs).  `token_value` is its instance for a single text;
-the harness compares both model loops with each other and each with the code on every input. -/
-def token_stream_full : Prop :=
-  ∀ (o : VOpts) (b : Bytes), b.length + 2 < 2 ^ 61 →
-    ((Model.TokenLoop.tokens o b).1 = (stream o b).1 ∧
-     ((Model.TokenLoop.tokens o b).2.2 = .ioEOF ↔ (stream o b).2.2 = .ioEOF))
+/-- **Stream-level agreement**: over any input (shorter than 2^61 bytes) the ReadToken loop and the ReadValue loop
+complete the same number of top-level values, and one ends with io.EOF iff the other does. -/
+theorem token_stream (o : VOpts) (b : Bytes) (hlen : b.length + 2 < 2 ^ 61) :
+    (Model.TokenLoop.tokens o b).1 = (stream o b).1 ∧
+    ((Model.TokenLoop.tokens o b).2.2 = .ioEOF ↔ (stream o b).2.2 = .ioEOF) :=
+  JsonV.Lemmas.WireTokenTop.token_stream_eq o b hlen
+
+/-- Hence the ReadToken loop, too, ends with io.EOF exactly on the streams of the grammar. -/
+theorem tokens_stream_iff (o : VOpts) (b : Bytes) (hlen : b.length + 2 < 2 ^ 61) :
+    (Model.TokenLoop.tokens o b).2.2 = .ioEOF ↔ JStream (gopts o) maxNestingDepth (nameKey o) b := by
+  rw [(token_stream o b hlen).2]
+  constructor
+  · intro h
+    rcases hs : stream o b with ⟨cnt, off, e⟩
+    rw [hs] at h
+    simp only at h; subst h
+    exact stream_sound o b cnt off hs
+  · intro h
+    obtain ⟨cnt, hc⟩ := stream_complete o b h
+    rw [hc]
 
 /-! ### Glue with slice C05 (Model/Resume.lean): the two model copies of the scanners are equal -/
 
